@@ -142,12 +142,14 @@ def float_part_probes(F, rep, rule="C14.float-parts"):
             return Flt(fun(x.v)) if isinstance(x, Flt) else NotImplemented
         return model
     fm = {"floor": f1(lambda x: float(math.floor(x))), "ceil": f1(lambda x: float(math.ceil(x))), "round": f1(rnd), "trunc": f1(lambda x: float(math.trunc(x))),
-          "fract": f1(lambda x: x - math.trunc(x)), "abs": f1(abs)}
+          "fract": f1(lambda x: x - math.trunc(x)), "abs": f1(abs),
+          # std's other roundings (Python's round() is ties-to-even): a tie with an even integer part (2.5) tells them from `round`
+          "round_ties_even": f1(lambda x: float(round(x))), "rint": f1(lambda x: float(round(x)))}
     n = 0
     for variant, (meth, fun) in want.items():
         if variant not in names:
             continue
-        for x in (7.5, -7.5, -2.0):
+        for x in (7.5, -7.5, -2.0, 2.5, -2.5, 0.5):
             recv = T.prim_value("Float", "arg0", Flt(x))
 
             def is_args(it, p, v):
